@@ -78,8 +78,14 @@ impl<'a> Run<'a> {
             let len = self.slots[v].bytes.len();
             let seed = crate::rng::mix(self.scn.hash_key, v as u64);
             let only_sig = self.mon.c15 && !self.mon.c01 && !self.mon.c08;
+            // C07 alone: what can be done to the third-party blocks of the token, and third-party
+            // blocks forged onto it
+            let only_tp = self.mon.c07 && !self.mon.c01 && !self.mon.c15 && !self.mon.c08;
             for op in faults::table(n, None, len, seed, 10) {
                 if only_sig && !op.signature_level() {
+                    continue;
+                }
+                if only_tp && !op.third_party_level() {
                     continue;
                 }
                 self.deliver_faulted(v, None, &op);
@@ -104,6 +110,9 @@ impl<'a> Run<'a> {
             for a in auxes {
                 let m = self.slots[a].ghost.len();
                 for op in faults::table(n, Some(m), len, seed, 0) {
+                    if only_tp && !op.third_party_level() {
+                        continue;
+                    }
                     if uses_aux(&op) {
                         self.deliver_faulted(v, Some(a), &op);
                     }
@@ -172,6 +181,9 @@ impl<'a> Run<'a> {
         if self.mon.c08 && self.slots[victim].sealed {
             v.push("C08");
         }
+        if self.mon.c07 {
+            v.push("C07");
+        }
         v
     }
 
@@ -235,7 +247,9 @@ impl<'a> Run<'a> {
         let report = |run: &mut Run, class: &str, detail: String, only: Option<&str>| {
             for p in &props {
                 if let Some(o) = only {
-                    if *p != o {
+                    // (a C07 run only delivers third-party faults: what C01 would be told about
+                    // them is what C07 is told)
+                    if *p != o && !(*p == "C07" && o == "C01") {
                         continue;
                     }
                 }
@@ -248,12 +262,44 @@ impl<'a> Run<'a> {
                 });
             }
         };
-        let flags = (r1.is_ok(), r2.is_ok(), r3.is_ok());
-        if !(flags.0 == flags.1 && flags.1 == flags.2) {
+        // the lenient parser for the deprecated third-party format, followed by the ordinary
+        // verify(): what is accepted is a verified token like any other
+        let r4 = UnverifiedBiscuit::unsafe_deprecated_deserialize(&m)
+            .map_err(|e| format!("{e:?}"))
+            .and_then(|u| u.verify(root).map_err(|e| format!("{e:?}")));
+        let flags = (r1.is_ok(), r2.is_ok(), r3.is_ok(), r4.is_ok());
+        // the deprecated path may accept a third-party block with signature version 0 that the
+        // strict parser refuses, but only one whose external signature is bound to the previous
+        // block's signature (R1, lenient mode); it never refuses what the strict paths accept
+        let r4_explained = if flags.3 && !flags.0 {
+            let rroot = self.scn.issuers[issuer].key.rkey();
+            self.stats.bump("sweep.deprecated_path_accepts_more");
+            match refchain::verify_bound_lenient(&m, &rroot) {
+                Ok(_) => true,
+                Err(e) => {
+                    report(
+                        self,
+                        "accepted-but-reference-rejects",
+                        format!(
+                            "op={kind} {:?} on slot {victim}: UnverifiedBiscuit::unsafe_deprecated_deserialize followed by verify() accepts a token in which a signature is not bound to the chain: {e}",
+                            op
+                        ),
+                        None,
+                    );
+                    true
+                }
+            }
+        } else {
+            false
+        };
+        if !(flags.0 == flags.1 && flags.1 == flags.2 && (flags.2 == flags.3 || r4_explained)) {
             report(
                 self,
                 "decode-paths-disagree",
-                format!("op={kind} {:?} on slot {victim}: from={} from_base64={} unverified+verify={}", op, flags.0, flags.1, flags.2),
+                format!(
+                    "op={kind} {:?} on slot {victim}: from={} from_base64={} unverified+verify={} unsafe_deprecated_deserialize+verify={}",
+                    op, flags.0, flags.1, flags.2, flags.3
+                ),
                 Some("C01"),
             );
         }
